@@ -154,9 +154,17 @@ def variables(*fs):
     return bools, rels
 
 
+# domain facts between source-membership atoms (a => b): rows violating them cannot occur and are not enumerated.
+# inData => inBaseline: CombinedDataHandler.data is a LEFT join of the preprocessed (baseline) data with the feed, possibly with
+# rows dropped afterwards, so every row of .data is a baseline unit (the converse does not hold under the "drop" policy).
+IMPLICATIONS = [("inData", "inBaseline")]
+
+
 def assignments(bools, rels):
     for bv in itertools.product([False, True], repeat=len(bools)):
         base = dict(zip(bools, bv))
+        if any(base.get(a) is True and base.get(b) is False for a, b in IMPLICATIONS):
+            continue
         for rv in itertools.product(["lt", "eq", "gt"], repeat=len(rels)):
             a = dict(base)
             a.update(zip(rels, rv))
